@@ -5,7 +5,7 @@ set -e
 cd "$(dirname "$0")/.."
 export CARGO_NET_OFFLINE=true
 python3 run/gen64.py
-python3 run/gen64proofs.py F32Core F32Wf F32Real F32Ops F32Approx F32Dot F32Div F32Exact F32Mono F32MonoOps F32Ident F32Invert F32Sign
+python3 run/gen64proofs.py F32Core F32Wf F32Real F32Ops F32Approx F32Dot F32Div F32Exact F32Mono F32MonoOps F32Ident F32Invert F32Sign F32Odd
 ( cd harness && cargo build --offline --release --target-dir target/default )
 mkdir -p work
 harness/target/default/release/harness extract /repo lean/Generated/Consts.lean work/fingerprints.json
